@@ -5,7 +5,8 @@ design spec   spec/KeyTime.tla: Slot/Minute arithmetic; TLC evaluates Agree, Sta
               non-monotonic) times and jitter; the AND-variant of the cache rule violates CacheSlot
 spec -> code  every exported (tc, d) pair at the slot / minute boundaries and at the +-60 / +-120 / +-240 s thresholds, with and
               without a cache-warming dial a few seconds earlier: a real client in a bubble at tc emits its first datagram, a real
-              server in a bubble at tc+d receives it (the process-wide key cache sees non-monotonic time across bubbles)
+              server in a bubble at tc+d receives it (the process-wide key cache sees non-monotonic time across bubbles); histories
+              of six first segments are answered by ONE server-side registry whose clock steps forwards and backwards between them
 code -> spec  TLC validates every record (Trace_KeyTime): Agree / StaleStampRefused / StaleKeyRefused / ClientUsesOwnSlot on what
               the real endpoints did, and conformance of accept/reject with the arithmetic
 """
@@ -63,6 +64,21 @@ def run(ctx):
         ctx.coverage["evaluations"] += len(got)
         ctx.coverage["distinct_nontrivial"] += sum(1 for r in got if (r["tc"] + 60) // 120 != (r["tc"] + r["d"] + 60) // 120 or r["tc"] // 60 != (r["tc"] + r["d"]) // 60)
         ctx.sample({"kind": "handshake across two clocks", "record": got[len(got) // 2]})
+        # one server-side registry (its per-user decryptor caches a slot's key triple) answers histories of first segments while the
+        # server clock steps forwards and backwards across slot changes
+        usable = [p for p in table if p["tc"] + p["d"] >= 0]
+        hists = [[dict(rnd.choice(usable)) for _ in range(6)] for _h in range(40 if not ctx.thorough() else 600)]
+        hin, hout = os.path.join(wd, "hist.ndjson"), os.path.join(wd, "hist_real.ndjson")
+        vlib.write_ndjson(hin, hists)
+        rc, log, _ = vlib.go_test("./c08/", "TestDecryptorHistory$", env={"VERIF_IN": hin, "VERIF_OUT": hout}, timeout=3000)
+        if rc != 0 or not os.path.exists(hout):
+            raise Inconclusive("driver TestDecryptorHistory failed:\n" + log[-3000:])
+        hgot = vlib.read_ndjson(hout)
+        if len(hgot) != 6 * len(hists):
+            raise Inconclusive("history driver ran %d of %d steps" % (len(hgot), 6 * len(hists)))
+        ctx.coverage["evaluations"] += len(hgot)
+        ctx.coverage["decryptor_histories_with_a_backward_clock_step"] = sum(1 for h in hists if any(h[i + 1]["tc"] + h[i + 1]["d"] < h[i]["tc"] + h[i]["d"] for i in range(5)))
+        vlib.write_ndjson(pout, got + hgot)
         for cfg, props, drift in (("Trace_KeyTime", PROPS, False), ("Trace_KeyTime_conf", ("Conforms",), True)):
             remaining = pout
             for attempt in range(6):
